@@ -607,6 +607,8 @@ fn run_graphs(ctx: &Ctx, n: usize, with_missing: bool) {
                     let err = String::from_utf8_lossy(&o.stderr);
                     let why = if err.contains("overflowed its stack") {
                         "stack-overflow"
+                    } else if o.status.code() == Some(3) {
+                        "hang"
                     } else {
                         "abnormal-exit"
                     };
@@ -726,6 +728,7 @@ pub fn run(ctx: &Ctx, replay: Option<&Value>, rest: &[String]) -> i32 {
     }
     if rest.len() >= 4 && rest[0] == "--graph" {
         DOTTED.store(rest.get(4).map(|x| x == "dotted").unwrap_or(false), std::sync::atomic::Ordering::SeqCst);
+        start_watchdog();
         return graph_child(rest[1].parse().unwrap(), rest[2].parse().unwrap(), rest[3] == "1");
     }
     if let Some(case) = replay {
